@@ -168,6 +168,43 @@ impl Scenario for C10 {
                 let t: String = b64(x).chars().map(|c| match c { '-' => '+', '_' => '/', o => o }).collect();
                 if pad { format!("{t}{}", "=".repeat((4 - t.len() % 4) % 4)) } else { t }
             };
+            // ... and inside the ASN.1 documents other tools write for the same keys (RFC 8410 PKCS#8 and
+            // SubjectPublicKeyInfo for Ed25519, RFC 5915 ECPrivateKey and SubjectPublicKeyInfo for P-384)
+            {
+                let h = |x: &str| hex::decode(x).unwrap_or_default();
+                let un = crate::refimpl::p384_uncompressed_of_scalar(&sc).unwrap_or(vec![4u8; 97]);
+                let docs: Vec<Vec<u8>> = vec![
+                    [&h("302e020100300506032b657004220420")[..], &seed32].concat(),
+                    [&h("302a300506032b6570032100")[..], &pk32].concat(),
+                    [&h("303e0201010430")[..], &sc].concat(),
+                    [&h("3081a40201010430")[..], &sc, &h("a00706052b81040022a16403620004")[..], &un[1..]].concat(),
+                    [&h("3076301006072a8648ce3d020106052b8104002203620004")[..], &un[1..]].concat(),
+                    [&h("3046301006072a8648ce3d020106052b81040022033200")[..], &comp].concat(),
+                    [&h("0420")[..], &seed32].concat(),
+                    [&h("0430")[..], &sc].concat(),
+                    [&h("032100")[..], &pk32].concat(),
+                ];
+                for reader in Bk::ALL {
+                    let f = reader.family();
+                    for doc in &docs {
+                        for artifact in [Artifact::KeyLocal, Artifact::KeySecret, Artifact::KeyPublic, Artifact::KeyPkeSecret, Artifact::KeyPkePublic] {
+                            let valid_len: &[usize] = match (f, artifact) {
+                                (_, Artifact::KeyLocal) => &[32],
+                                (1, _) => continue,
+                                (2 | 4, Artifact::KeySecret | Artifact::KeyPkeSecret) => &[64],
+                                (2 | 4, _) => &[32],
+                                (3, Artifact::KeySecret | Artifact::KeyPkeSecret) => &[48],
+                                _ => &[49, 97],
+                            };
+                            if valid_len.contains(&doc.len()) {
+                                continue;
+                            }
+                            let text = format!("k{f}{}{}", artifact.header(), b64(doc));
+                            b.push(Step::Offer { text: TextRef::Lit { text }, faults: vec![], reader, artifact, expect: Some(false), why: format!("C10:wrong-length-key-accepted:a {}-byte ASN.1 document around key material offered as the bytes of {}", doc.len(), artifact.name()) });
+                        }
+                    }
+                }
+            }
             let materials: Vec<Vec<u8>> = vec![seed32.clone(), [&seed32[..], &pk32].concat(), pk32.clone(), sc.clone(), comp.clone()];
             for reader in Bk::ALL {
                 let f = reader.family();
